@@ -87,6 +87,8 @@ func nxConfigs(part string, thorough bool) []*nxCfg {
 			{Name: "partitioned-old-leader", N: 3, MaxDev: pick(2, 3), Prefix: nxWarm, Script: []string{"W1", "T2", "H2", "W2", "H2", "R1", "H1", "R3", "H2"}, Partitions: 2, Heartbeats: 1, LazyApplies: 1, Horizon: 200},
 			{Name: "newleader-read", N: 3, MaxDev: pick(2, 3), Prefix: nxWarm, Script: []string{"W1", "T2", "R2", "H2"}, Reads: 1, LazyApplies: 1, Reorders: 1, Drops: 2, Horizon: 150},
 			{Name: "reads-follower", N: 3, MaxDev: pick(2, 3), Prefix: nxWarm, Script: []string{"W2", "R3", "R1", "W3", "R2", "H1"}, Timeouts: 2, Crashes: 1, Drops: 3, LazyApplies: 1, Heartbeats: 1, Horizon: 150},
+			{Name: "3v+nv-partitioned-old-leader", N: 3, NonVotings: 1, MaxDev: pick(2, 3), Prefix: []string{"T1", "D*", "H1", "D*", "A1:4", "D*", "J4", "D*", "H1", "D*"},
+				Script: []string{"W1", "M9", "T2", "H2", "W2", "H2", "R1", "H1", "R4", "H1", "H1", "E", "H2"}, Heartbeats: 1, LazyApplies: 1, Drops: 1, Horizon: 250},
 		}
 	}
 	return nil
